@@ -23,7 +23,7 @@ pub static SPEC: PropSpec = PropSpec {
     case_cpu_s: 120,
     shards: 0,
     run,
-    floors: &[("uses_checked", 5_000, 150_000), ("programs_agree", 150, 4_000), ("leaks_rejected", 150, 4_000), ("random_programs_agree", 60, 1_500)],
+    floors: &[("uses_checked", 5_000, 150_000), ("programs_agree", 150, 4_000), ("leaks_rejected", 150, 4_000), ("random_programs_agree", 60, 1_500), ("callee_programs_agree", 100, 2_500), ("calls_of_locals_named_like_functions", 2_000, 50_000)],
     finish: None,
 };
 
@@ -314,6 +314,202 @@ fn scope_program(rng: &mut Rng, leak: Option<LeakPlan>) -> Option<(Program, u64,
     Some((prog, g.uses, g.path_hash, g.leak_kind))
 }
 
+/// names that are BOTH top-level functions and local binders of function type: in call position (`f(3)`) and as a
+/// value (`let h = f`) the innermost local wins while it is in scope and the top-level function is meant again
+/// after its block ends. Every function value adds its own constant, so the printed number names the binder.
+struct CG<'a> {
+    rng: &'a mut Rng,
+    next_const: i128,
+    next_use: usize,
+    uses: u64,
+    local_calls: u64,
+    path_hash: u64,
+}
+const FNAMES: [&str; 2] = ["f", "g"];
+impl<'a> CG<'a> {
+    fn konst(&mut self) -> i128 {
+        self.next_const += 1;
+        self.next_const
+    }
+    /// the expression `n` as a value / callee: local variable when bound, top-level function otherwise
+    fn call(&mut self, n: &'static str, locals: &[&'static str], arg: Expr) -> Expr {
+        if locals.contains(&n) {
+            self.local_calls += 1;
+            Expr::CallValue(Box::new(var(n)), vec![arg])
+        } else {
+            Expr::Call { name: n.into(), targs: vec![], args: vec![arg] }
+        }
+    }
+    fn value(&mut self, n: &'static str, locals: &[&'static str]) -> Expr {
+        if locals.contains(&n) { var(n) } else { Expr::FnRef(n.into()) }
+    }
+    fn show_call(&mut self, n: &'static str, locals: &[&'static str]) -> Stmt {
+        self.next_use += 1;
+        self.uses += 1;
+        let c = self.rng.range(0, 9) as i128;
+        let e = self.call(n, locals, i(c));
+        discard(bi("string_println", vec![add(Expr::Str(format!("c{}:{}({})=", self.next_use, n, c)), bi("int32_to_string", vec![e]))]))
+    }
+    fn block(&mut self, depth: u32, locals: &[&'static str], nstmts: usize) -> Vec<Stmt> {
+        let mut lc: Vec<&'static str> = locals.to_vec();
+        let mut out = Vec::new();
+        for _ in 0..nstmts {
+            let k = if depth == 0 { self.rng.below(5) } else { self.rng.below(10) };
+            self.path_hash = self.path_hash.wrapping_mul(1099511628211).wrapping_add(k as u64 + 31 * depth as u64);
+            let n = *self.rng.pick_ref(&FNAMES);
+            match k {
+                0 | 1 => out.push(self.show_call(n, &lc)),
+                2 => {
+                    // let-bound closure literal named like the top-level function
+                    let c = self.konst() * 10_000;
+                    out.push(let_(n, Expr::Closure { params: vec![("k".into(), Some(I32))], body: Box::new(add(var("k"), i(c))) }));
+                    if !lc.contains(&n) {
+                        lc.push(n);
+                    }
+                }
+                3 => {
+                    // let-bound function value: one of the helper functions, or the OTHER name's current meaning
+                    let h = format!("h{}", self.rng.below(4));
+                    let other = FNAMES[(FNAMES.iter().position(|x| *x == n).unwrap() + 1) % 2];
+                    let v = if self.rng.bool() { Expr::FnRef(h) } else { self.value(other, &lc) };
+                    out.push(let_(n, v));
+                    if !lc.contains(&n) {
+                        lc.push(n);
+                    }
+                }
+                4 => {
+                    // the name used as a value, then called through another variable
+                    let alias = format!("al{}", self.konst());
+                    let v = self.value(n, &lc);
+                    out.push(let_(&alias, v));
+                    self.next_use += 1;
+                    self.uses += 1;
+                    out.push(discard(bi("string_println", vec![add(Expr::Str(format!("c{}:via {}=", self.next_use, n)), bi("int32_to_string", vec![Expr::CallValue(Box::new(var(&alias)), vec![i(1)])]))])));
+                }
+                5 => {
+                    // tuple pattern binder
+                    let h = format!("h{}", self.rng.below(4));
+                    out.push(Stmt::Let(Pat::Tuple(vec![Pat::Var(n.into()), Pat::Wild]), None, Expr::Tuple(vec![Expr::FnRef(h), i(0)])));
+                    if !lc.contains(&n) {
+                        lc.push(n);
+                    }
+                }
+                6 => {
+                    // match-arm binder
+                    let h = format!("h{}", self.rng.below(4));
+                    let mut inner = lc.clone();
+                    if !inner.contains(&n) {
+                        inner.push(n);
+                    }
+                    let body = self.inner(depth - 1, &inner);
+                    out.push(discard(Expr::Match(Box::new(Expr::Tuple(vec![Expr::FnRef(h), i(1)])), vec![(Pat::Tuple(vec![Pat::Var(n.into()), Pat::Wild]), body)])));
+                }
+                7 => {
+                    // closure parameter of function type named like the top-level function
+                    let mut inner = lc.clone();
+                    if !inner.contains(&n) {
+                        inner.push(n);
+                    }
+                    let body = self.inner(depth - 1, &inner);
+                    let cname = format!("clo{}", self.konst());
+                    out.push(let_(&cname, Expr::Closure { params: vec![(n.to_string(), Some(Ty::Func(vec![I32], Box::new(I32))))], body: Box::new(body) }));
+                    let h = format!("h{}", self.rng.below(4));
+                    out.push(discard(Expr::CallValue(Box::new(var(&cname)), vec![Expr::FnRef(h)])));
+                }
+                _ => {
+                    // nested block: its binders end with it
+                    let b = self.inner(depth - 1, &lc.clone());
+                    out.push(discard(b));
+                }
+            }
+        }
+        out
+    }
+    fn inner(&mut self, depth: u32, locals: &[&'static str]) -> Expr {
+        let n = 2 + self.rng.below(3) as usize;
+        let mut stmts = self.block(depth, locals, n);
+        // the last statement of a block is a call: the innermost binder at the end of the block
+        let nm = *self.rng.pick_ref(&FNAMES);
+        let lc: Vec<&'static str> = {
+            // recompute what the block bound (lets at this level)
+            let mut v = locals.to_vec();
+            for st in &stmts {
+                if let Stmt::Let(p, _, _) = st {
+                    let mut names = Vec::new();
+                    match p {
+                        Pat::Var(x) => names.push(x.clone()),
+                        Pat::Tuple(ps) => ps.iter().for_each(|q| {
+                            if let Pat::Var(x) = q {
+                                names.push(x.clone())
+                            }
+                        }),
+                        _ => {}
+                    }
+                    for x in names {
+                        if let Some(f) = FNAMES.iter().find(|f| **f == x) {
+                            if !v.contains(f) {
+                                v.push(f);
+                            }
+                        }
+                    }
+                }
+            }
+            v
+        };
+        stmts.push(self.show_call(nm, &lc));
+        Expr::Block(stmts, Some(Box::new(Expr::Unit)))
+    }
+}
+
+fn callee_program(rng: &mut Rng) -> (Program, u64, u64, u64) {
+    let mut prog = Program::default();
+    let fty = Ty::Func(vec![I32], Box::new(I32));
+    for (k, n) in FNAMES.iter().enumerate() {
+        prog.items.push(Item::Fn(FnDecl { name: n.to_string(), tparams: vec![], params: vec![("k".into(), I32)], ret: I32, body: Expr::Block(vec![], Some(Box::new(add(var("k"), i(1000 * (k as i128 + 1)))))) }));
+    }
+    for k in 0..4 {
+        prog.items.push(Item::Fn(FnDecl { name: format!("h{}", k), tparams: vec![], params: vec![("k".into(), I32)], ret: I32, body: Expr::Block(vec![], Some(Box::new(add(var("k"), i(100 * (k as i128 + 1)))))) }));
+    }
+    let mut g = CG { rng, next_const: 0, next_use: 0, uses: 0, local_calls: 0, path_hash: 1469598103934665603 };
+    let mut main_stmts = Vec::new();
+    for k in 0..3 {
+        // scope0: no parameter shadows; scope1: parameter f; scope2: parameters f and g
+        let params: Vec<(String, Ty)> = FNAMES.iter().take(k).map(|n| (n.to_string(), fty.clone())).collect();
+        let locals: Vec<&'static str> = FNAMES.iter().take(k).copied().collect();
+        let depth = 2 + g.rng.below(2) as u32;
+        let mut stmts = g.block(depth, &locals, 7);
+        // after all blocks: what the names mean at function level
+        let lc: Vec<&'static str> = {
+            let mut v = locals.clone();
+            for st in &stmts {
+                if let Stmt::Let(p, _, _) = st {
+                    let names: Vec<String> = match p {
+                        Pat::Var(x) => vec![x.clone()],
+                        Pat::Tuple(ps) => ps.iter().filter_map(|q| if let Pat::Var(x) = q { Some(x.clone()) } else { None }).collect(),
+                        _ => vec![],
+                    };
+                    for x in names {
+                        if let Some(f) = FNAMES.iter().find(|f| **f == x) {
+                            if !v.contains(f) {
+                                v.push(f);
+                            }
+                        }
+                    }
+                }
+            }
+            v
+        };
+        for n in FNAMES {
+            stmts.push(g.show_call(n, &lc));
+        }
+        prog.items.push(Item::Fn(FnDecl { name: format!("scope{}", k), tparams: vec![], params, ret: Ty::Unit, body: Expr::Block(stmts, Some(Box::new(Expr::Unit))) }));
+        let args: Vec<Expr> = (0..k).map(|j| Expr::FnRef(format!("h{}", (j + k) % 4))).collect();
+        main_stmts.push(discard(Expr::Call { name: format!("scope{}", k), targs: vec![], args }));
+    }
+    prog.items.push(Item::Fn(FnDecl { name: "main".into(), tparams: vec![], params: vec![], ret: Ty::Unit, body: Expr::Block(main_stmts, Some(Box::new(Expr::Unit))) }));
+    (prog, g.uses, g.local_calls, g.path_hash)
+}
+
 fn run(ctx: &mut Ctx) {
     let tier = ctx.tier;
     let seed = ctx.seed;
@@ -386,6 +582,33 @@ fn run(ctx: &mut Ctx) {
             }
             if j < 3 {
                 c.sample(json!({"workload": format!("leak twin: {}", kind)}));
+            }
+        });
+    }
+    // locals named like top-level functions, in call position and as values
+    let n = tier.pick(160u64, 4_000u64) / ctx.nshards as u64 + 1;
+    for j in 0..n {
+        let mut rng = Rng::keyed(seed, "c05-callee", ctx.shard as u64, j);
+        let (prog, uses, local_calls, path) = callee_program(&mut rng);
+        let label = format!("callee/{}/{}", ctx.shard, j);
+        ctx.case(&label.clone(), |c| {
+            match diff::run_diff(c, &prog, &label, &opts) {
+                Outcome::Agree { .. } => {
+                    c.count("callee_programs_agree", 1);
+                    c.count("uses_checked", uses);
+                    c.count("calls_of_locals_named_like_functions", local_calls);
+                    c.nontrivial(path);
+                }
+                Outcome::Rejected(st, msg) => c.violation(
+                    format!("C05:well-scoped-program-rejected:{}", diff::msg_class(&msg)),
+                    format!("a well-scoped program (locals named like top-level functions) is rejected ({}): {}", st, util::truncate(&msg, 200)),
+                    json!({"label": label, "source": print_program(&prog, PrintOpts::default())}),
+                ),
+                Outcome::Inconclusive(r) => diff::inconclusive_unless_crash(c, "C05", &r, &label, &print_program(&prog, PrintOpts::default())),
+                Outcome::Violation => {}
+            }
+            if j == 0 {
+                c.sample(json!({"workload": "callee shadowing", "uses": uses, "source_head": util::truncate(&print_program(&prog, PrintOpts::default()), 900)}));
             }
         });
     }
